@@ -2,8 +2,16 @@
    are converted exactly.  Statements only. *)
 From Coq Require Import String QArith.
 From Iso Require Import Proofs.Tac Spec.Cal Spec.Instant Spec.ZoneText Model.Num Model.Duration
-  Model.TimePoint Model.LocalZone Proofs.LocalZoneSpec.
+  Model.TimePoint Model.LocalZone Proofs.LocalZoneSpec gen.GenCode Proofs.GenCodeOk.
 Open Scope Z_scope.
+
+(* the body of timezone.get_local_time_zone, TRANSLATED from the source on this run
+   (time.timezone, time.altzone, time.daylight, tm_isdst as parameters), is the
+   model function the theorems below are about *)
+Theorem C18_code : gen.GenCode.translator_ok_code = true /\
+  (forall tz alt dl isdst, gen.GenCode.py_get_local_time_zone tz alt dl isdst = get_local_time_zone tz alt dl isdst).
+Proof. exact (conj Proofs.GenCodeOk.gen_code_accepted Proofs.GenCodeOk.gen_get_local_time_zone_eq). Qed.
+Print Assumptions C18_code.
 
 (* every whole-minute offset o (in minutes, no bound): the pair is exact and
    both parts carry the offset's sign *)
@@ -58,10 +66,10 @@ Proof. exact from_unix_spec. Qed.
 Print Assumptions C18_from_epoch.
 
 (* seconds_since_unix_epoch is the whole number of seconds from the epoch to the
-   instant (floor for instants at or after the epoch; exact when integral) *)
+   instant: its floor, before and after the epoch (fix: commit ecba00f); exact when integral *)
 Theorem C18_to_epoch : forall md p, valid_tp md p = true ->
   exists k, seconds_since_unix_epoch md p = Some k /\
-    ((instant md unix_ref <= instant md p)%Q -> k = Qfloor (instant md p - instant md unix_ref)) /\
+    k = Qfloor (instant md p - instant md unix_ref) /\
     (qis_int (instant md p - instant md unix_ref) = true ->
        (inject_Z k == instant md p - instant md unix_ref)%Q).
 Proof. exact seconds_since_unix_epoch_spec. Qed.
